@@ -430,6 +430,16 @@ def _events_for_text(job):
             if "rules" not in _LONG or _LONG["n"] > 2000:
                 _LONG["rules"], _LONG["n"] = rules(pos=False), 0
             _LONG["n"] += 1
+            # ... each time also about a few short-lived trees of other kinds (an equation, a sum, a product) that are dropped at once
+            for d in ("x + 1 = 2", "2y * y", "4x + 2x", "3 = x", "7"):
+                dt = parse(d)
+                for _, _, r in _LONG["rules"]:
+                    try:
+                        r.can_apply_to(dt)
+                        r.find_node(dt)
+                    except BaseException:  # noqa
+                        pass
+                del dt
             out.extend(reprobe_event(t0.clone(), _LONG["rules"], text, "long-lived"))
         except BaseException:  # noqa
             pass
